@@ -63,6 +63,7 @@ TRUSTED = [
 ]
 
 KINDS = ('acq', 'tick', 'rel', 'disc', 'stop')
+REOPEN = 'reopen'   # harness-only event: the shelve DBI is closed and opened again (no model op)
 
 
 # ------------------------------------------------------------------------------ fakes
@@ -117,6 +118,16 @@ class Mods:
             context, lockview, comms, enums, security)
         self.task, self.DBI, self.reactor = task, DBI, reactor
         self.reason = failure.Failure(terror.ConnectionDone())
+        # what the code under test logs is not part of the observation; keep the check's output clean
+        import logging
+        lg = logging.getLogger('dawgie')
+        lg.addHandler(logging.NullHandler())
+        lg.propagate = False
+        # an exception inside a poll is swallowed by LoopingCall (its Deferred fails, the call stops);
+        # Twisted only logs it ("Unhandled error in Deferred") - send that log nowhere
+        import twisted.logger
+        twisted.logger.globalLogBeginner.beginLoggingTo(
+            [lambda event: None], redirectStandardIO=False, discardBuffer=True)
         self.world = None
         reactor.callLater = self._call_later  # instance attribute: shadows the method
         self.yours = self._client_yours()
@@ -126,6 +137,33 @@ class Mods:
         if cls._inst is None:
             cls._inst = Mods()
         return cls._inst
+
+    dbroot = None
+
+    def reopen_db(self):
+        """the real `DBI().close(); DBI().open()` (what `Worker._do_copy` does while it holds the
+        lock) on a scratch store of this process; it replaces `DBI().task_engine`"""
+        import os
+        import tempfile
+        if Mods.dbroot is None:
+            Mods.dbroot = tempfile.mkdtemp(prefix='c13db')
+            Mods.own_dbroot = os.getpid()
+        d = os.path.join(Mods.dbroot, str(os.getpid()))
+        os.makedirs(d, exist_ok=True)
+        self.context.db_path, self.context.db_name = d, 'c13'
+        self.DBI().close()
+        self.DBI().open()
+
+    def cleanup_db(self):
+        import os
+        import shutil
+        try:
+            self.DBI().close()
+        except Exception:  # pylint: disable=broad-except
+            pass
+        if Mods.dbroot is not None and getattr(Mods, 'own_dbroot', None) == os.getpid():
+            shutil.rmtree(Mods.dbroot, ignore_errors=True)
+            Mods.dbroot = None
 
     def _call_later(self, delay, fn, *a, **kw):
         d = Delayed(delay, fn, a, kw)
@@ -261,6 +299,8 @@ class World:
             elif kind == 'disc':
                 w.transport.lost = True
                 w.connectionLost(m.reason)
+            elif kind == REOPEN:
+                m.reopen_db()
             elif kind == 'stop':
                 if self.pending[c]:
                     d = self.pending[c].pop(0)
@@ -390,6 +430,8 @@ def line_of(n, ops):
 # ------------------------------------------------------------------------------ generators
 def norm(op):
     kind, c = op[0], op[1]
+    if kind == REOPEN:
+        return (REOPEN, 0, None)
     return (kind, c, bool(op[2]) if kind in ('acq', 'rel') else None)
 
 
@@ -413,6 +455,10 @@ def corpus():
                 # a dropped client sends nothing more; its timers still fire
                 tail = [o for o in ops[i:] if not (o[1] == c and o[0] in (A, R, D))]
                 out.append((n, ops[:i] + [(D, c, None)] + tail + [(A, n, True), (T, n, None)]))
+        for i in range(len(ops) + 1):
+            # the store is closed and opened again (a backup does that while it holds the lock):
+            # DBI().task_engine is replaced while clients own the lock / wait for it
+            out.append((n, ops[:i] + [(REOPEN, 0, None)] + ops[i:] + [(A, n, True), (T, n, None)]))
     # malformed streams: protocol breaches as explicit branches
     out += [
         (2, [norm(o) for o in [(A, 0, 1), (A, 0, 1), (A, 0, 0), (S, 0), (A, 0, 1), (T, 0), (D, 0), (T, 0), (A, 1, 1)]]),
@@ -445,8 +491,11 @@ def gen_valid(r, n, length):
     ops, obs = [], []
     closing = [False] * n
     p_crash = r.choice([0.0, 0.03, 0.1, 0.25])
+    p_reopen = r.choice([0.0, 0.0, 0.05, 0.15])
     for _ in range(length):
         ch = []
+        if r.random() < p_reopen:
+            ch += [(REOPEN, 0, None)] * 2
         for c in range(n):
             if mon.live[c]:
                 if closing[c]:
@@ -469,7 +518,8 @@ def gen_valid(r, n, length):
         pre = mon.pre(world, op)
         o = world.do(op)
         mon.step(len(ops), op, pre, o, world)
-        if o['close']:
+        if o['close'] or (op[2] and o['err'] != 'ok'):
+            # closed by the server, or (as the reactor does) dropped because dataReceived raised
             closing[op[1]] = True
         ops.append(op)
         obs.append(o)
@@ -479,8 +529,11 @@ def gen_valid(r, n, length):
 def gen_malformed(r, n, length):
     w = r.choice([(3, 3, 2, 2, 2), (1, 1, 1, 1, 1), (4, 6, 3, 1, 1), (2, 2, 4, 3, 3)])
     ops = []
+    p_reopen = r.choice([0.0, 0.0, 0.1])
     for _ in range(length):
         k = r.choices(KINDS, weights=w)[0]
+        if r.random() < p_reopen:
+            k = REOPEN
         ops.append(norm((k, r.randrange(n), r.random() < 0.5)))
     return ops
 
@@ -555,7 +608,9 @@ class Batch:
         for sig, what, i in hits:
             # the history up to and including the event at which the property fails
             self.hits.append((sig, what, {'n': n, 'ops': [list(o) for o in ops[:i + 1]]}))
-        if self.lean:
+        if any(op[0] == REOPEN for op in ops):
+            self.count('histories-with-db-reopen(monitors-only)')
+        elif self.lean:
             self.cases.append((tag, n, ops, [canon_obs(o) for o in obs],
                                [o['stray'] for o in obs]))
 
@@ -632,6 +687,168 @@ def _merge(res, out):
             res.samples.append(s)
 
 
+# ------------------------------------------------------------------------------ the blocking client under faults
+CLIENT_FAULTS = ('ConnectionResetError', 'TimeoutError', 'BrokenPipeError', 'ConnectionAbortedError',
+                 'OSError', 'SSLError', 'EOF')
+CLIENT_CUTS = (0, 2, 4, 10)   # bytes of the next answer delivered before the fault
+
+
+class StillWaiting(BaseException):
+    """the client would block for ever (no data will come); not an Exception on purpose"""
+
+
+class BridgeSocket:
+    """socket of a real `comms.acquire` call, wired to connection `c` of a World: `sendall`
+    feeds the Worker's `dataReceived`, `recv` reads what the Worker wrote; when nothing is
+    buffered the Worker's looping call is ticked.  After `k` complete answers the socket fails
+    `cut` bytes into the next one."""
+
+    def __init__(self, world, c, k, fault, cut, before_poll=None, before_fault=None):
+        self.world, self.c, self.k, self.fault, self.cut = world, c, k, fault, cut
+        self.before_poll, self.before_fault = before_poll, before_fault
+        self.stream = bytearray()
+        self.pos = 0
+        self.taken = 0      # writes of the transport already pulled
+        self.eofs = 0
+        self.polls = 0
+        self.closed = False
+
+    def sendall(self, b):
+        w = self.world
+        w.current = self.c
+        try:
+            w.w[self.c].dataReceived(bytes(b))
+        finally:
+            w.current = None
+
+    def _pull(self):
+        t = self.world.w[self.c].transport
+        for b in t.written[self.taken:]:
+            self.stream += b
+        self.taken = len(t.written)
+        self.world.marks[self.c] = self.taken
+
+    def _frames(self):
+        """(complete answers consumed, bytes consumed of the current one)"""
+        done, off = 0, 0
+        while off + 4 <= len(self.stream):
+            end = off + 4 + struct.unpack('>I', bytes(self.stream[off:off + 4]))[0]
+            if end <= self.pos:
+                done, off = done + 1, end
+            else:
+                break
+        return done, self.pos - off
+
+    def _fail(self):
+        if self.before_fault is not None:
+            self.before_fault()
+            self.before_fault = None
+        if self.fault == 'EOF':
+            self.eofs += 1
+            if self.eofs > 64:
+                raise StillWaiting()
+            return b''
+        if self.fault == 'SSLError':
+            import ssl
+            raise ssl.SSLError('scripted TLS failure')
+        raise getattr(__import__('builtins'), self.fault)('scripted socket failure')
+
+    def recv(self, n):
+        self._pull()
+        done, inside = self._frames()
+        limit = n
+        if self.fault is not None and done == self.k:
+            if inside >= self.cut:
+                return self._fail()
+            limit = min(n, self.cut - inside)
+        while self.pos >= len(self.stream):
+            # nothing buffered: the server's next poll
+            self.polls += 1
+            if self.polls > self.k + 4:
+                raise StillWaiting()
+            if self.before_poll is not None:
+                self.before_poll(self.polls)
+            self.world.do(('tick', self.c, None))
+            self._pull()
+        out = bytes(self.stream[self.pos:self.pos + limit])
+        self.pos += len(out)
+        return out
+
+    def close(self):
+        self.closed = True
+
+
+def run_client_case(inp):
+    """connection 0 owns the lock; the real `comms.acquire` runs as the client of connection 1.
+    Returns (outcome, owner flag of connection 1, db_lock)."""
+    m = Mods.get()
+    world = World(2)
+    world.do(('acq', 0, True))
+    release_at = inp.get('release_at')
+
+    def before_poll(i):
+        if release_at is not None and i == release_at:
+            world.do(('rel', 0, True))
+
+    def before_fault():
+        if inp.get('release_before_fault'):
+            world.do(('rel', 0, True))
+
+    sock = BridgeSocket(world, 1, inp['k'], inp.get('fault'), inp.get('cut', 0), before_poll, before_fault)
+    saved = m.security.connect
+    m.security.connect = lambda addr: sock
+    try:
+        got = m.comms.acquire('client')
+        outcome = 'returned' if got is sock else 'returned-other'
+    except StillWaiting:
+        outcome = 'waiting'
+    except Exception as e:  # pylint: disable=broad-except
+        outcome = 'raised:' + type(e).__name__
+    finally:
+        m.security.connect = saved
+    return outcome, world.has_lock(1), world.lock()
+
+
+def check_client_case(inp, res):
+    outcome, owner, lock = run_client_case(inp)
+    res.count('client:' + outcome.split(':')[0])
+    if outcome.startswith('returned') and not (owner and lock):
+        res.hit('C13:client-returns-without-grant',
+                f'comms.acquire() returned (the client now believes it holds the lock) after '
+                f'{inp["k"]} "locked" answers and a socket fault {inp.get("fault")} {inp.get("cut", 0)} bytes '
+                f'into the next answer, but its connection does not own the lock '
+                f'(owner flag {owner}, db_lock {lock}) while connection 0 holds it',
+                dict(inp, kind='client'))
+    return outcome, owner
+
+
+def client_faults(res):
+    """the blocking client `comms.acquire` under a socket fault at every point of its wait loop
+    while another client holds the lock: it must not return unless its connection owns the lock"""
+    n = 0
+    for k in (0, 1, 2, 3):
+        for fault in CLIENT_FAULTS:
+            for cut in CLIENT_CUTS:
+                check_client_case({'k': k, 'fault': fault, 'cut': cut}, res)
+                n += 1
+        # the holder releases, the lock is free, and the fault comes before the client's next poll
+        for fault in CLIENT_FAULTS:
+            check_client_case({'k': k, 'fault': fault, 'cut': 0, 'release_before_fault': True}, res)
+            n += 1
+        # control: no fault, the holder releases, the client is granted and acquire() returns
+        outcome, owner = check_client_case({'k': k, 'fault': None, 'release_at': max(k, 1)}, res)
+        if not (outcome == 'returned' and owner):
+            res.diff('client control: comms.acquire() does not return after a grant',
+                     {'k': k}, 'returned, owner', [outcome, owner])
+        # control: no fault, no release: the client keeps waiting
+        outcome, _ = check_client_case({'k': k, 'fault': None}, res)
+        if outcome != 'waiting':
+            res.count('client:control-not-waiting:' + outcome)
+        n += 2
+    res.evaluations += n
+    res.count('client-fault-scripts', n)
+
+
 def validate_generated(res, lean):
     """generated definitions vs the Python originals, on their whole (finite) domain"""
     m = Mods.get()
@@ -699,12 +916,21 @@ def run(ctx, res):
     res.assumptions = list(TRUSTED)
     Mods.get()
     validate_generated(res, lean)
+    client_faults(res)
     b = Batch(lean)
     for n, ops in stored_corpus() + corpus():
         obs, hits = run_case(n, ops)
         b.add('corpus', n, ops, obs, hits)
     b.compare()
     _merge(res, b.result())
+    Mods.get().DBI().close()   # nothing of the scratch store stays open across the fork
+    try:
+        _run_pools(ctx, res, thorough, lean)
+    finally:
+        Mods.get().cleanup_db()
+
+
+def _run_pools(ctx, res, thorough, lean):
     # exhaustive small scope + random streams
     if thorough:
         jobs = [(2, 6, i, 8, lean) for i in range(8)] + [(3, 5, i, 4, lean) for i in range(4)] \
@@ -728,7 +954,13 @@ def run(ctx, res):
 
 def replay(rep, res):
     inp = rep['input']
+    if inp.get('kind') == 'client':
+        check_client_case({k: v for k, v in inp.items() if k != 'kind'}, res)
+        return
     ops = [norm(o) for o in inp['ops']]
-    _obs, hits = run_case(inp['n'], ops)
+    try:
+        _obs, hits = run_case(inp['n'], ops)
+    finally:
+        Mods.get().cleanup_db()
     for sig, what, _i in hits:
         res.hit(sig, what, inp)
